@@ -252,6 +252,7 @@ def C16():
         MirJob("c16_mir_keys", "sign_key/seal_key use the client-to-server constants for the client role and server-to-client for the peer; build_security_interface wires encrypt=client sealing key, decrypt=server sealing key, signing=client signing key, verify=server signing key", mirjobs.ntlm_keys),
         MirJob("c16_mir_unwrap_order", "gss_unwrapex: RC4-decrypts the payload then the checksum with the decrypt cipher (keystream order), computes HMAC-MD5(verify_key, seq_num || plaintext), compares the first 8 bytes, returns the plaintext only on the match edge and Err(InvalidChecksum) on the mismatch edge",
                mirjobs.unwrap_order),
+        MirJob("c16_mir_signature_layout", "message_signature_ex is Version (constant-checked 1) | Checksum | SeqNum, and the sequence number enters the HMAC little-endian in both mac and gss_unwrapex", mirjobs.signature_layout),
         MirJob("c16_mir_wrap_order", "gss_wrapex/mac: encrypts the data, then the first 8 bytes of HMAC-MD5(signing_key, seq_num || data) with the same cipher, emits version 1 / checksum / seq_num followed by the ciphertext and increments seq_num once", mirjobs.wrap_order),
     ]
     return Prop("C16", [("nla/rc4.rs", "rc4.rs")], jobs,
